@@ -121,7 +121,19 @@ TEMPLATES += [
         "one": {"e": {"k": "OneOf", "elements": [{"k": "Integer", "kw": {"default": 1}}]}, "required": False, "source": None}}}},
      "order": ["Gauge"], "root": {"k": "Ref", "name": "Gauge"}},
 ]
-TEMPLATE_VALUES = [{"count": 1}, {"count": 2, "level": 3, "levels": [1, 2]}, {"count": 2, "level": 2.5}, {"count": 1, "mode": "manual", "kind": None, "one": 5},
+TEMPLATES += [
+    # declared properties whose JSON name is also matched by a patternProperties regex of another type: the DECLARED element builds the value
+    {"classes": {"Owner": {"k": "Obj", "name": "Owner", "base": None, "doc": None, "kw": {}, "props": {
+        "id": {"e": {"k": "Integer", "kw": {}}, "required": False, "source": None}}},
+        "Meter": {"k": "Obj", "name": "Meter", "base": None, "doc": None,
+                  "kw": {"patternProperties": {"^c": {"k": "Number", "kw": {}}, "^own": {"k": "Element", "kw": {"minProperties": 1}}}},
+                  "props": {"count": {"e": {"k": "Integer", "kw": {}}, "required": False, "source": None},
+                            "owner": {"e": {"k": "Ref", "name": "Owner"}, "required": False, "source": None},
+                            "owners": {"e": {"k": "Array", "items": {"k": "Ref", "name": "Owner"}, "kw": {}}, "required": False, "source": None}}}},
+     "order": ["Owner", "Meter"], "root": {"k": "Ref", "name": "Meter"}},
+]
+TEMPLATE_VALUES = [{"count": 3}, {"count": 3, "owner": {"id": 1}, "owners": [{"id": 2}]}, {"owner": {"id": 1}}, {"c2": 1.5, "count": 0},
+                   {"count": 1}, {"count": 2, "level": 3, "levels": [1, 2]}, {"count": 2, "level": 2.5}, {"count": 1, "mode": "manual", "kind": None, "one": 5},
                    {"name": "Rex"}, {"name": "Rex", "legs": 4}, [{"name": "Rex"}], {"pts": [{"x": 1}]}, {"ns": ["one", 2]}, {"ns": [1, 2]}, {"none": [1]}, {"none": []},
                    {"n": 1}, {"n": 3.0}, {"n": 2, "f": 2, "xs": ["a", 1, 2], "u": "s"}, {"n": 1, "xs": ["a", 3.0]}, {"n": 1, "u": 4.0}, {"n": True},
                    {"n": 1, "options": {}}, {"n": 1, "options": {"v": 2}}, {"n": 1, "d": "y", "f": 1.5}]
